@@ -11,12 +11,7 @@ use jbonsai::model::MeanVari;
 use jbonsai::Condition;
 use jlabel::Label;
 
-/// raw annotation of one label: optional start / end in 100 ns units
-#[derive(Clone, Copy, Debug, PartialEq)]
-pub struct Ann {
-    pub start: Option<u64>,
-    pub end: Option<u64>,
-}
+pub use crate::alignlaw::{check_law, frames_exact, known_ends, Ann, Verdict};
 
 /// caller-built Labels with individually present/absent start and end (public Labels::new)
 struct Annotated {
@@ -34,96 +29,6 @@ impl ToLabels for Annotated {
             .collect();
         Labels::new(self.labels, Some(times))
     }
-}
-
-/// known end of each label (own end, else the next label's start), in 100 ns units
-pub fn known_ends(ann: &[Ann]) -> Vec<Option<u64>> {
-    (0..ann.len())
-        .map(|i| ann[i].end.or_else(|| if i + 1 < ann.len() { ann[i + 1].start } else { None }))
-        .collect()
-}
-
-/// round(e * rate / (fperiod * 1e7)) in exact integer arithmetic; (value, near a .5 tie)
-pub fn frames_exact(e: u64, rate: usize, fperiod: usize) -> (u64, bool) {
-    let num = e as u128 * rate as u128;
-    let den = fperiod as u128 * 10_000_000u128;
-    let q = num / den;
-    let r = num % den;
-    let frac = r as f64 / den as f64;
-    let rounded = if 2 * r >= den { q + 1 } else { q };
-    (rounded as u64, (frac - 0.5).abs() < 1e-9 * (1.0 + q as f64))
-}
-
-pub enum Verdict {
-    Ok { groups_multi: usize, inherited: usize },
-    Bad(String, J),
-}
-
-/// The alignment law on a duration vector. `trailing`: expected durations of the states after
-/// the last known end (None = not checked).
-pub fn check_law(dur: &[usize], ann: &[Ann], nstate: usize, rate: usize, fperiod: usize, trailing: Option<&[(usize, bool)]>) -> Verdict {
-    let n = ann.len();
-    if dur.len() != n * nstate {
-        return Verdict::Bad("duration-count".into(), J::obj().set("len", dur.len()).set("expected", n * nstate));
-    }
-    if dur.iter().any(|d| *d == 0) {
-        return Verdict::Bad("state-without-frame".into(), J::from(dur.to_vec()));
-    }
-    let ends = known_ends(ann);
-    let mut c_prev = 0u64; // frames before the current group
-    let mut group_start = 0usize; // first label of the current group
-    let mut groups_multi = 0;
-    let inherited = (0..n).filter(|i| ann[*i].end.is_none() && ends[*i].is_some()).count();
-    for i in 0..n {
-        if let Some(e) = ends[i] {
-            let m = ((i + 1 - group_start) * nstate) as u64;
-            let states = &dur[group_start * nstate..(i + 1) * nstate];
-            let got: u64 = states.iter().map(|d| *d as u64).sum();
-            let (target, tie) = frames_exact(e, rate, fperiod);
-            let ok_for = |t: u64| -> bool {
-                if t > c_prev && t - c_prev > m {
-                    c_prev + got == t
-                } else {
-                    got == m && states.iter().all(|d| *d == 1)
-                }
-            };
-            let ok = ok_for(target) || (tie && (ok_for(target + 1) || (target > 0 && ok_for(target - 1))));
-            if !ok {
-                return Verdict::Bad(
-                    "frames-up-to-known-end".into(),
-                    J::obj()
-                        .set("label", i)
-                        .set("group_first_label", group_start)
-                        .set("end_100ns", e)
-                        .set("target_cumulative_frames", target)
-                        .set("frames_before_group", c_prev)
-                        .set("group_states", m)
-                        .set("group_frames", got)
-                        .set("group_durations", J::from(states.to_vec())),
-                );
-            }
-            if i + 1 - group_start >= 2 {
-                groups_multi += 1;
-            }
-            c_prev += got;
-            group_start = i + 1;
-        }
-    }
-    // trailing labels after the last known end: model durations
-    if group_start < n {
-        if let Some(exp) = trailing {
-            let states = &dur[group_start * nstate..];
-            for (k, (d, (want, amb))) in states.iter().zip(exp).enumerate() {
-                if d != want && !*amb {
-                    return Verdict::Bad(
-                        "trailing-labels-do-not-fall-back-to-model-durations".into(),
-                        J::obj().set("first_trailing_label", group_start).set("state", k).set("got", *d).set("expected", *want),
-                    );
-                }
-            }
-        }
-    }
-    Verdict::Ok { groups_multi, inherited }
 }
 
 /// time shapes: 0 monotone, 1 reversed/non-monotone, 2 zero-length, 3 fractional frames, 4 huge gaps
